@@ -1408,7 +1408,8 @@ def capture_oto():
             errors.append(f"capture run with {k} duplicate-free datasets made only {len(passes)} loop passes (need >= 3 to check that the loop body is uniform)")
         for j, b in enumerate(passes[1:], start=2):
             if b != passes[0]:
-                errors.append(f"loop body differs between pass 1 and pass {j} ({k} duplicate-free datasets): {b} != {passes[0]}")
+                diff = [(x, y) for x, y in zip(b, passes[0]) if x != y] or [(b, passes[0])]
+                errors.append(f"loop body differs between pass 1 and pass {j} ({k} duplicate-free datasets): {str(diff[0][0])[:300]} != {str(diff[0][1])[:300]}")
                 break
         if passes and [nm for nm, _ in passes[0]] != OTO_BODY:
             errors.append(f"a pass issues {[nm for nm, _ in passes[0]]}, expected {OTO_BODY}")
